@@ -21,18 +21,20 @@ S_INVARIANTS = {"Inv_SpecMatchesPython", "Inv_Defined"}
 
 
 def main() -> int:
+    replay = os.environ.get("VERIF_REPLAY")
+    # core.Check wipes replays/C08 when it starts: read the replay file first
+    rp = core.read_json(pathlib.Path(replay))["case"] if replay else None
     ck = core.Check("C08", "model_checking")
     suffix = "" if ck.quick else "_thorough"
-    replay = os.environ.get("VERIF_REPLAY")
 
     cases_p = ck.work / "cases.json"
     if replay:
-        rp = core.read_json(pathlib.Path(replay))["case"]
         core.write_json(cases_p, [{"model": rp["model"], "insts": [rp["instance"]] if rp.get("instance") else [], "fnargs": {rp["fn"]: [rp["args"]]} if rp.get("fn") else {}}])
         n_pool = 0
     else:
-        # M — design level (cheap in the quick tier; the thorough one is run by C07)
-        ck.model_check("MC_ExprSound", "MC_ExprSound.cfg", "WellTyped => Eval yields a boolean or IndexError, on every instance", workers=8, timeout=900)
+        # M — design level: the generated traversal (lazy pre-order, paths, inherited invariants, raising) refines
+        # the declarative Expected / MustRaise; the soundness of the typing that selects candidate invariants is C07's M
+        ck.model_check("VerifAlgo", "MC_VerifAlgo%s.cfg" % suffix, "the traversal machine reports exactly Verif!Expected, raises iff MustRaise, terminates", workers=4, timeout=1500, deadlock=True)
         g = ck.tlc("VerifGen", "VerifGen%s.cfg" % suffix, what="G: models x instances x function arguments", env={"VERIF_OUT": str(cases_p)}, count=False, timeout=1500)
         n_pool = 0
         for line in g.printed:
@@ -56,24 +58,40 @@ def main() -> int:
         res = ck.tlc("VerifTrace", what="V: verify(instance) = {(path, description) : invariant false}; raises only if an invariant raises", env={"VERIF_MODELS": str(models_p), "VERIF_OBS": str(pp)}, cont=True, workers=4, timeout=3000)
         if res.distinct != 2 * len(chunks[ci]):
             raise core.MachineryFailure("TLC consumed %d of %d observations" % (res.distinct // 2, len(chunks[ci])))
+        reported = {}
         for v in step_violations(res.stdout):
-            o = chunks[ci][v["i"] - 1]
-            rec = parse_flat_record(v["v"])
-            inv = v["invariant"]
+            reported.setdefault(v["i"], (v["invariant"], parse_flat_record(v["v"])))
+        for i, (first_inv, rec) in sorted(reported.items()):
+            o = chunks[ci][i - 1]
             model = models[o["m"] - 1]
-            if inv in S_INVARIANTS:
-                raise core.MachineryFailure("S phase (%s): Verif!Expected and direct CPython evaluation disagree for model %s: verdict %s, python %s" % (inv, model["name"], rec, json.dumps(o["py_errors"])[:400]))
-            if inv == "Inv_RaisesOnlyIfInvariantRaises":
-                key = {"clause": inv, "kind": "raised_without_cause"}
-            else:
-                key = {"clause": inv, "kind": rec.get("kind"), "feature": rec.get("feature"), "owner": rec.get("owner"), "inherited": rec.get("inherited")}
-            ck.violation(
-                key,
-                inv,
-                {"model": model, "instance": o["inst"]},
-                {"outcome": o["outcome"], "errors": o["errors"], "exception": o["exc"], "python_reference": o["py_errors"], "culprit": {"path": rec.get("path"), "cause": rec.get("cause")}},
-                detail="model %s: %s error (%s, %s%s invariant) at path %r: %r; verify -> %s %s" % (model["name"], rec.get("kind"), rec.get("feature"), "inherited " if rec.get("inherited") else "", rec.get("owner"), rec.get("path"), rec.get("cause"), o["outcome"], o["exc"]),
-            )
+            if not rec.get("s_ok") or not rec.get("defined") or first_inv in S_INVARIANTS:
+                raise core.MachineryFailure("S phase (%s): Verif!Expected and direct CPython evaluation disagree for model %s: verdict %s, python %s %s" % (first_inv, model["name"], rec, o["py_outcome"], json.dumps(o["py_errors"])[:400]))
+            failing = []
+            if not rec["raise_ok"]:
+                failing.append(("Inv_RaisesOnlyIfInvariantRaises", {"clause": "Inv_RaisesOnlyIfInvariantRaises", "kind": "raised_without_cause"}))
+            if not rec["exact_ok"]:
+                failing.append(("Inv_ErrorsExactlyFalseInvariants", {"clause": "Inv_ErrorsExactlyFalseInvariants", "kind": rec.get("kind"), "feature": rec.get("feature"), "owner": rec.get("owner"), "inherited": rec.get("inherited")}))
+            if first_inv not in [f[0] for f in failing]:
+                raise core.MachineryFailure("verdict record and reported invariant disagree: %s vs %s" % (first_inv, rec))
+            for inv, key in failing:
+                ck.violation(
+                    key,
+                    inv,
+                    {"model": model, "instance": o["inst"]},
+                    {"outcome": o["outcome"], "errors": o["errors"], "exception": o["exc"], "python_reference": o["py_errors"], "culprit": {"path": rec.get("path"), "cause": rec.get("cause")}},
+                    detail="model %s: %s error (%s, %s%s invariant) at path %r: %r; verify -> %s %s" % (model["name"], rec.get("kind"), rec.get("feature"), "inherited " if rec.get("inherited") else "", rec.get("owner"), rec.get("path"), rec.get("cause"), o["outcome"], o["exc"]),
+                )
+
+    # negative control of the binding (thorough tier): a dropped error must be rejected by TLC
+    if not ck.quick and not replay:
+        o = next(o for o in obs if o["outcome"] == "ok" and o["errors"] and o["py_outcome"] == "ok" and o["errors"] == o["py_errors"])
+        bad = {k: o[k] for k in ("m", "inst", "outcome", "errors", "py_outcome", "py_errors")}
+        bad["errors"] = bad["errors"][1:]
+        pp = ck.work / "obs_negctl.json"
+        core.write_json(pp, [bad])
+        res = ck.tlc("VerifTrace", what="negative control: an observation with one error removed is rejected", env={"VERIF_MODELS": str(models_p), "VERIF_OBS": str(pp)}, cont=True, workers=1, timeout=600, count=False)
+        if not any(v["invariant"] == "Inv_ErrorsExactlyFalseInvariants" for v in step_violations(res.stdout)):
+            raise core.MachineryFailure("negative control: TLC did not reject a corrupted observation")
 
     # V — functions
     if fobs:
